@@ -53,6 +53,7 @@ def run(repo, rep, tier):
     _entry_restored(repo, rep)
     _iterable_expressions(repo, rep)
     _digits(repo, rep)
+    L.state_rule(repo, rep)
 
 
 ROMAN = ((1000, 'M'), (900, 'CM'), (500, 'D'), (400, 'CD'), (100, 'C'),
